@@ -552,3 +552,32 @@ MUTANTS += [
  dict(name='c03-spec-adds-restrict', prop='C03', expect='spec|signature',
       edits=[('include/core/arch/x86_64/bigint.hpp', 'inline bool BigInt<384>::add(const BigInt<384>& a, const BigInt<384>& __restrict b) {', 'inline bool BigInt<384>::add(const BigInt<384>& __restrict a, const BigInt<384>& __restrict b) {')]),
 ]
+MUTANTS += [
+ dict(name='c13-verify-binds-without-hsig', prop='C13', expect='sig|binding',
+      edits=[('src/wkdibe/api.cpp', """            G1 prodexp;
+            prodexp.multiply(params.hsig, message);
+            prodexp.add(prodexp, precomputed.prodexp);
+            a0affine.from_projective(signature.a0);""", """            G1 prodexp;
+            prodexp.multiply(params.g3, message);
+            prodexp.add(prodexp, precomputed.prodexp);
+            a0affine.from_projective(signature.a0);""")]),
+ dict(name='c13-verify-pairs-swapped-a1', prop='C13', expect='sig|equation',
+      edits=[('src/wkdibe/api.cpp', """        pairs[1].g1 = &prodexpaffine;
+        pairs[1].g2 = &a1affine;
+        bls12_381::pairing_product(ratio, pairs, 2, nullptr, 0);""", """        pairs[1].g1 = &prodexpaffine;
+        pairs[1].g2 = &gaffine;
+        bls12_381::pairing_product(ratio, pairs, 2, nullptr, 0);""")]),
+ dict(name='c13-verify-no-negation', prop='C13', expect='sig|equation',
+      edits=[('src/wkdibe/api.cpp', """        GT ratio;
+        prodexpaffine.negate(prodexpaffine);""", """        GT ratio;""")]),
+ dict(name='c13-sign-fill-no-kpp', prop='C13', expect='sig|fill',
+      edits=[('src/wkdibe/api.cpp', """                    prodexp.multiply(sk.b[i].hexp, attrs->attrs[k].id);
+                    signature.a0.add(signature.a0, prodexp);
+                    k++;""", """                    prodexp.multiply(sk.b[i].hexp, attrs->attrs[k].id);
+                    signature.a0.add(signature.a0, prodexp);""")]),
+ dict(name='seed-C07-gt-exp-no-init', prop='C07', patch='seeded/C07-gt-exp-uninitialised-accumulator/patch.diff', expect='R-DEFOUT'),
+ dict(name='c06-wnaf-table-multiply-no-init', prop='C06', expect='R-DEFOUT',
+      edits=[('include/bls12_381/wnaf.hpp', """        result.copy(Projective::zero);
+
+        bool found_one = false;""", """        bool found_one = false;""")]),
+]
